@@ -19,6 +19,8 @@ namespace tapkee_internal
 __TAPKEE_IMPLEMENTATION(LocalityPreservingProjections)
     void validate()
     {
+        // there are only as many projection directions as features
+        parameters[target_dimension].checked().satisfies(InClosedRange<IndexType>(1, current_dimension)).orThrow();
         parameters[gaussian_kernel_width].checked().satisfies(Positivity<ScalarType>()).orThrow();
     }
 
